@@ -9,7 +9,8 @@ def direct_known_key(d):
     # F7: after an InsufficientProgress roll-back the last printed line describes the
     # discarded iterate; only that exact situation is a listed finding
     det = (d.get("input") or {}).get("detail") or {}
-    if d.get("key") == "last-line-after-rollback" and det.get("rolled_back") and det.get("status") == 10:
+    # (final status InsufficientProgress, or the Almost* status post-processing turns it into)
+    if d.get("key") == "last-line-after-rollback" and det.get("rolled_back") and det.get("status") in (10, 4, 5, 6):
         return "last-line-after-rollback"
     return None
 
